@@ -198,6 +198,23 @@ func checkC15(c caseC15) (Outcome, error) {
 			return out, nil
 		}
 		p, err := period.NewPeriodFromPatternString(s)
+		if !inFourShapes(s) {
+			// The property speaks about the four shapes YYYY, YYYY-MM, YYYY-Qq, YYYY-Www. Whether
+			// klog is lenient about other spellings (`2020/01`, `2020-1`, `2020-q1`) is its own
+			// business; they only must not crash. A single-digit week (`2020-W1`), which klog reads
+			// today, must still denote that week when it is accepted.
+			if err == nil && valid {
+				if e := wantPeriod("pattern "+s, p, since, until); e != nil {
+					return out, e
+				}
+			}
+			if err == nil {
+				out.Label("outside-four-shapes:accepted")
+			} else {
+				out.Label("outside-four-shapes:rejected")
+			}
+			return out, nil
+		}
 		if (err == nil) != valid {
 			return out, fmt.Errorf("period pattern %q: klog accepts=%v, expected valid=%v", s, err == nil, valid)
 		}
@@ -213,6 +230,27 @@ func checkC15(c caseC15) (Outcome, error) {
 		return out, nil
 	}
 	return out, fmt.Errorf("unknown part")
+}
+
+// inFourShapes reports whether s has one of the shapes YYYY, YYYY-MM, YYYY-Qq, YYYY-Www (digits
+// in the places of the letters Y, M, q, w), whatever the numbers are.
+func inFourShapes(s string) bool {
+	digits := func(t string) bool { _, ok := atoiStrict(t); return ok }
+	if len(s) < 4 || !digits(s[:4]) {
+		return false
+	}
+	rest := s[4:]
+	switch {
+	case rest == "":
+		return true
+	case len(rest) == 3 && rest[0] == '-' && digits(rest[1:]):
+		return true
+	case len(rest) == 3 && rest[:2] == "-Q" && digits(rest[2:]):
+		return true
+	case len(rest) == 4 && rest[:2] == "-W" && digits(rest[2:]):
+		return true
+	}
+	return false
 }
 
 func atoiStrict(s string) (int, bool) {
